@@ -2,6 +2,7 @@ package device
 
 import (
 	"context"
+	"errors"
 	"fmt"
 	"math"
 	"regexp"
@@ -336,6 +337,7 @@ func (d *Device) handleOpenrgb(ctx context.Context, wg *sync.WaitGroup) {
 	var err error
 
 	timeout := time.Now().Add(time.Second * 5)
+	err = errors.New("no connection attempt was made before the deadline") // e.g. the process was stalled: c is still nil
 
 	for {
 		select {
@@ -373,6 +375,7 @@ func (d *Device) handleOpenrgb(ctx context.Context, wg *sync.WaitGroup) {
 	}
 
 	timeout = time.Now().Add(time.Second * 2)
+	err = errors.New("no controller lookup was made before the deadline") // dev would be the zero value
 
 	for {
 		select {
